@@ -126,6 +126,79 @@ Print Assumptions C15_shown_iff.
 Print Assumptions C15_exec_writers.
 Print Assumptions C15_trim_unique.
 
+(* ---- Exec handed caller-supplied writers that may fail (Model/Sh.v, exec_x): XW w never fails, XFail n accepts
+   n bytes and then fails every Write.  Outside the property sentence's quantifier; recorded and checked because
+   Exec is public API and C05 rests on the statuses it produces. ---- *)
+Section X.
+Variable penv : envlist.
+Variable child : list string -> list string -> child_result.
+Notation exec_x_ := (exec_x penv child).
+
+(* with writers that never fail, exec_x is the Exec of the theorems above *)
+Theorem C15x_conservative : forall envm so se cmd args,
+  exec_x_ envm (XW so) (XW se) cmd args = call_entry penv child (FExec so se) envm cmd args.
+Proof. exact (exec_x_conservative penv child). Qed.
+
+(* nil exactly when the command exited 0 and copying its output into the writers did not fail *)
+Theorem C15x_nil_iff_zero : forall envm so se cmd args,
+  let x := exec_x_ envm so se cmd args in
+  let r := child (k_argv x) (k_envp x) in
+  k_err x = ENil <-> (exists out errout, r = Started 0 out errout) /\ copy_failed so se r = false.
+Proof. exact (x_nil_iff penv child). Qed.
+
+(* whatever the writers do: exit k <> 0 is reported as k; not started / signaled as a plain error with status 1 *)
+Theorem C15x_status : forall envm so se cmd args,
+  let x := exec_x_ envm so se cmd args in
+  let r := child (k_argv x) (k_envp x) in
+  (forall k out errout, r = Started k out errout -> k <> 0%Z ->
+     k_ran x = true /\ k_err x = EFatal k /\ mg_ExitStatus (k_err x) = k /\ sh_ExitStatus (k_err x) = k) /\
+  ((r = NotStarted \/ exists s out errout, r = Signaled s out errout) ->
+     k_ran x = false /\ k_err x = EOther /\ mg_ExitStatus (k_err x) = 1%Z /\ sh_ExitStatus (k_err x) = 1%Z).
+Proof. exact (x_status penv child). Qed.
+
+(* what the code does: exit 0 but a writer failed - reported like a command that did not run *)
+Theorem C15x_failing_writer : forall envm so se cmd args out errout,
+  let x := exec_x_ envm so se cmd args in
+  child (k_argv x) (k_envp x) = Started 0 out errout -> copy_failed so se (Started 0 out errout) = true ->
+  k_ran x = false /\ k_err x = EOther /\ mg_ExitStatus (k_err x) = 1%Z /\ sh_ExitStatus (k_err x) = 1%Z.
+Proof. exact (x_failing_writer penv child). Qed.
+
+(* for every child and all writers: a non-nil error never carries status 0 *)
+Theorem C15x_nonnil_status_nonzero : forall envm so se cmd args,
+  let x := exec_x_ envm so se cmd args in
+  k_err x <> ENil -> mg_ExitStatus (k_err x) <> 0%Z /\ sh_ExitStatus (k_err x) <> 0%Z.
+Proof. exact (x_nonnil_status_nonzero penv child). Qed.
+
+(* what the writers hold afterwards; argv / environment / stdin as for Exec *)
+Theorem C15x_writers : forall envm so se cmd args,
+  let x := exec_x_ envm so se cmd args in
+  let r := child (k_argv x) (k_envp x) in
+  k_buf_out x = accepted so (child_out r) /\ k_buf_err x = accepted se (child_err r) /\
+  k_argv x = map (expand (exec_mapping penv envm)) (cmd :: args) /\
+  k_envp x = dedup_env (environ penv ++ map entry_str envm) /\ k_stdin x = OsStdin.
+Proof. exact (x_writers penv child). Qed.
+End X.
+
+(* a buffer accepts the whole stream; a writer failing after n bytes has accepted exactly the first min(n, length)
+   bytes and reports a failure exactly when the stream is longer than n *)
+Theorem C15x_accepted : forall w d,
+  match w with
+  | XW WBuf => accepted w d = d /\ write_fails w d = false
+  | XW _ => accepted w d = EmptyString /\ write_fails w d = false
+  | XFail n => (exists rest, d = String.append (accepted w d) rest) /\
+               String.length (accepted w d) = Nat.min n (String.length d) /\
+               (write_fails w d = true <-> n < String.length d)
+  end.
+Proof. exact accepted_spec. Qed.
+
+Print Assumptions C15x_conservative.
+Print Assumptions C15x_nil_iff_zero.
+Print Assumptions C15x_status.
+Print Assumptions C15x_failing_writer.
+Print Assumptions C15x_nonnil_status_nonzero.
+Print Assumptions C15x_writers.
+Print Assumptions C15x_accepted.
+
 (* non-vacuity: a concrete environment and map satisfying keys_ok with overlapping keys, values
    with '$' and '=', a child that exits 3 after writing "out\n\n" *)
 Example C15_nonvacuous :
@@ -141,3 +214,12 @@ Example C15_nonvacuous :
   k_os_stdout (call_entry nv_penv nv_child FRun nv_envm "/bin/tool" []) = "".
 Proof. exact nonvacuous_c15. Qed.
 Print Assumptions C15_nonvacuous.
+
+Example C15x_nonvacuous :
+  let x := exec_x nv_penv nv_child nv_envm (XFail 2) (XW WBuf) "/bin/tool" [] in
+  let y := exec_x nv_penv (fun _ _ => Started 0 "abc" "") nv_envm (XFail 2) (XW WBuf) "/bin/tool" [] in
+  k_err x = EFatal 3 /\ k_buf_out x = "ou" /\ k_buf_err x = "err" /\
+  k_err y = EOther /\ k_ran y = false /\ k_buf_out y = "ab" /\
+  k_err (exec_x nv_penv (fun _ _ => Started 0 "ab" "") nv_envm (XFail 2) (XW WBuf) "/bin/tool" []) = ENil.
+Proof. exact nonvacuous_x. Qed.
+Print Assumptions C15x_nonvacuous.
